@@ -21,6 +21,14 @@ RULE = ("per case: rule set spot|futures, 1-3 subscribed instruments, a manager 
         "instruments of such a case keep the full depth): every snapshot of such an instrument is the venue's book at its id cut to the best n levels per side; harness and "
         "model then also print one `lv<k>:<side>:<price> <amount>` line per price of the venue after the `book` lines, and the oracle states those lines at exactly the "
         "prices the current snapshot covers, an admitted update wrote or the venue changed since the snapshot id (the whole-book line only when the limit cuts nothing). "
+        "On top of these, N/8 cases (ids d…, input-domain audit) from a third independent random stream draw the classes the two families above never produce: every id "
+        "of the case shifted by one of {0, 2^32-20, 22 611 425 143, 10^12, 2^53-20, 2^63-20, 2^64-401, 2^64-1 000 001} (each in turn); 50 %: prices on grids of 1e-8 ticks / "
+        "at 1e12 / with 12 significant digits / across 1 and amounts from {1e-8, 123456789.12345678, 1e12, 1e12+1e-8, 0.1, 0.30000000, 2.5}; 50 %: a quarter of the levels "
+        "of snapshots and updates spell their price with another scale (100 / 100.0 / 100.00); 40 %: non-genuine updates in 40 % instead of 10 % of the cases plus 1-3 "
+        "non-genuine updates that CONTINUE a delivered one (pu = its u, u = its u..u+2, U among 0, its u, its u+1, u+1, u+3, its U - also U > u, which the futures rule "
+        "admits) stating up to 4 random prices per side, repeats with different amounts included; 50 %: noise before 15/25 % of the updates and 35 % of the noise frames are Binary frames "
+        "that do NOT deserialise (`binbad i`: the bytes of one of the 8 bad texts, or bytes that are not UTF-8) - the classic families send Binary frames only with a valid update; 25 % of these cases have depth-limited snapshots "
+        "(corpus/C06E/C_domain_edges.ops: hand-written inputs of the same classes). "
         "The corpus holds, besides the fixed vectors of the theorems, depth-limited connections (incl. the witness of the theorems) and REST snapshots listing a price twice. "
         "A case is distinct by the SHA-1 of its op lines and "
         "non-trivial when the implementation's observation blocks differ at least once")
